@@ -52,6 +52,17 @@ def boundary_vectors(ctx):
             rng.shuffle(qs)
             out.append({"id": "thr-%d-%d" % (k, n), "ref": ["A", "A", "A"], "qs": qs, "hard": False, "lowr": False, "lowq": False,
                         "wrap": 0, "thr": k * 1000 // n})
+    # frequencies with no finite decimal expansion, the threshold written with nine decimals just below and just above k/n
+    # (a printed, rounded frequency fed back in as the threshold)
+    for n in (3, 6, 7, 9, 11, 12, 13, 14, 21, 30, 48, 49):
+        for k in range(1, n):
+            if (k * 10 ** 9) % n == 0:
+                continue
+            for up in (0, 1):
+                qs = [["C" if i < k else "A", "G" if i < k - 1 else "A", "T" if i < k + 1 else "A"] for i in range(n)]
+                rng.shuffle(qs)
+                out.append({"id": "thr9-%d-%d-%s" % (k, n, "above" if up else "below"), "ref": ["A", "A", "A"], "qs": qs, "hard": False,
+                            "lowr": False, "lowq": False, "wrap": 0, "thr": 0, "thr9": k * 10 ** 9 // n + up})
     return out
 
 
@@ -93,4 +104,21 @@ def variants_boundary_vectors(ctx):
             out.append({"id": "vthr-%d-%d" % (k, n), "kind": "anno", "R": list(GENOME), "qs": qs, "feats": feats, "refdup": (k + n) % 3 == 0,
                         "dupname": (k + n) % 3 == 1,
                         "runs": [run(False, 0), run(True, k * 1000 // n)] + ([dict(run(False, 0), stdin=True)] if (k + n) % 3 == 0 else [])})
+    for n in (3, 6, 7, 9, 11, 13):
+        for k in range(1, n):
+            if (k * 10 ** 9) % n == 0:
+                continue
+            qs = []
+            for i in range(n):
+                s = list(GENOME)
+                if i < k:
+                    s[1] = "A"
+                if i < k - 1:
+                    s[16] = "C"
+                if i < k + 1:
+                    s[7] = "G"
+                qs.append(s)
+            rng.shuffle(qs)
+            out.append({"id": "vthr9-%d-%d" % (k, n), "kind": "anno", "R": list(GENOME), "qs": qs, "feats": feats,
+                        "runs": [run(False, 0), dict(run(True, 0), thr9=k * 10 ** 9 // n), dict(run(True, 1), thr9=k * 10 ** 9 // n + 1)]})
     return out
